@@ -3,7 +3,7 @@
     and ZipDir/ZipFile still read as the text the model in Arch/Extract.v and
     Arch/ZipRound.v was written against; the containment test precedes every
     writing call of each extraction loop. *)
-From Coq Require Import List String.
+From Coq Require Import List String Bool.
 From Verif Require Import Gen.ArchSkeleton.
 Import ListNotations.
 Local Open Scope string_scope.
@@ -80,7 +80,7 @@ Lemma arch_src_createFile_unchanged : gen_src_createFile = model_src_createFile.
 Proof. reflexivity. Qed.
 
 Definition model_src_zipDir : string :=
-  "func(dir string, w io.Writer) error { ar := zip.NewWriter(w) walk := func(p string, info os.FileInfo, err error) error { rel, err := filepath.Rel(dir, p) if err != nil { return err } mod := info.Mode() t := info.ModTime() if info.IsDir() { h := &zip.FileHeader{Name: rel + ""/""} h.SetMode(mod) h.SetModTime(t) _, err := ar.CreateHeader(h) return err } fin, err := os.Open(p) if err != nil { return err } defer fin.Close() h := &zip.FileHeader{Name: rel} h.SetMode(mod) h.SetModTime(t) w, err := ar.CreateHeader(h) if err != nil { return err } if _, err = io.Copy(w, fin); err != nil { return err } return fin.Close() } if err := filepath.Walk(dir, walk); err != nil { return err } return ar.Close() }".
+  "func(dir string, w io.Writer) error { ar := zip.NewWriter(w) walk := func(p string, info os.FileInfo, err error) error { if err != nil { return err } rel, err := filepath.Rel(dir, p) if err != nil { return err } mod := info.Mode() t := info.ModTime() if info.IsDir() { h := &zip.FileHeader{Name: rel + ""/""} h.SetMode(mod) h.SetModTime(t) _, err := ar.CreateHeader(h) return err } fin, err := os.Open(p) if err != nil { return err } defer fin.Close() h := &zip.FileHeader{Name: rel} h.SetMode(mod) h.SetModTime(t) w, err := ar.CreateHeader(h) if err != nil { return err } if _, err = io.Copy(w, fin); err != nil { return err } return fin.Close() } if err := filepath.Walk(dir, walk); err != nil { return err } return ar.Close() }".
 
 Lemma arch_src_zipDir_unchanged : gen_src_zipDir = model_src_zipDir.
 Proof. reflexivity. Qed.
@@ -90,6 +90,54 @@ Definition model_src_zipFile : string :=
 
 Lemma arch_src_zipFile_unchanged : gen_src_zipFile = model_src_zipFile.
 Proof. reflexivity. Qed.
+
+(** ** Round 3: the other entry points *)
+
+Definition model_src_openInTemp : string :=
+  "func(r io.Reader, tmp *tempfile.File) (*zip.Reader, error) { n, err := io.Copy(tmp, r) if err != nil { return nil, err } if err := tmp.Reset(); err != nil { return nil, err } return zip.NewReader(tmp, n) }".
+
+Lemma arch_src_openInTemp_unchanged : gen_src_openInTemp = model_src_openInTemp.
+Proof. reflexivity. Qed.
+
+Definition model_src_tarZipFile : string :=
+  "func(tw *tar.Writer, p string, dir string) error { z, err := zip.OpenReader(p) if err != nil { return errcode.Annotate(err, ""open zip file"") } for _, f := range z.File { stat := f.FileInfo() tarStat, err := tar.FileInfoHeader(stat, """") if err != nil { return errcode.Annotatef(err, ""tar stat for: %q"", f.Name) } name := f.Name if dir != """" { name = path.Join(dir, name) } tarStat.Name = name if err := tw.WriteHeader(tarStat); err != nil { return errcode.Annotatef(err, ""write header: %q"", f.Name) } if err := copyZipFile(tw, f); err != nil { return errcode.Annotatef(err, ""copy zip file: %q"", f.Name) } } return nil }".
+
+Lemma arch_src_tarZipFile_unchanged : gen_src_tarZipFile = model_src_tarZipFile.
+Proof. reflexivity. Qed.
+
+Definition model_src_copyZipFile : string :=
+  "func(w io.Writer, f *zip.File) error { rc, err := f.Open() if err != nil { return err } if _, err := io.Copy(w, rc); err != nil { rc.Close() return err } return rc.Close() }".
+
+Lemma arch_src_copyZipFile_unchanged : gen_src_copyZipFile = model_src_copyZipFile.
+Proof. reflexivity. Qed.
+
+(** The exported callers [Cont.CopyOut] and [Cont.CopyOutFile] and
+    [writeFirstFileAs] are not frozen as text.  What the theorems need of
+    them is decidable on their call skeleton: the only call that can touch
+    the file system is the modelled extractor (resp. [createFile]), it is
+    reached, and the destination it is given is the caller's own parameter,
+    unchanged; [writeFirstFileAs] never looks at an entry's name. *)
+Definition fs_touching : list string :=
+  [ "os.MkdirAll"; "os.Mkdir"; "os.Create"; "os.OpenFile"; "os.WriteFile"; "os.Symlink"; "os.Link";
+    "os.Rename"; "os.Remove"; "os.RemoveAll"; "os.Chmod"; "os.Chown"; "os.Truncate"; ".Chmod";
+    "createFile"; "writeTarToDir"; "writeFirstFileAs"; "untarInto"; "ioutil.WriteFile" ].
+
+Definition only_writer (w : string) (calls : list string) : bool :=
+  forallb (fun c => negb (existsb (String.eqb c) fs_touching) || String.eqb c w) calls &&
+  existsb (String.eqb w) calls.
+
+Lemma arch_copyout_is_the_modelled_extractor :
+  only_writer "writeTarToDir" gen_calls_copyout = true /\ gen_dest_arg_copyout = gen_dest_param_copyout.
+Proof. split; reflexivity. Qed.
+
+Lemma arch_copyoutfile_is_the_modelled_extractor :
+  only_writer "writeFirstFileAs" gen_calls_copyoutfile = true /\ gen_dest_arg_copyoutfile = gen_dest_param_copyoutfile.
+Proof. split; reflexivity. Qed.
+
+Lemma arch_firstfile_ignores_entry_names :
+  only_writer "createFile" gen_calls_firstfile = true /\ gen_dest_arg_firstfile = gen_dest_param_firstfile /\
+  gen_uses_entry_name_firstfile = false.
+Proof. repeat split; reflexivity. Qed.
 
 (** The containment test comes before anything that writes. *)
 Lemma arch_unzip_check_first : gen_check_first_unzip = true.
